@@ -14,6 +14,7 @@ THEOREMS = [
     ("EG.props.C06", "C06_jwt_mutation_rejected"),
     ("EG.props.C06", "C06_basic_exact"),
     ("EG.props.C06", "C06_headers_exact"),
+    ("EG.props.C06", "C06_basic_latest_users"),
     ("EG.props.C06", "C06_all_methods_must_pass"),
     ("EG.props.C06", "C06_reject_is_invalid_4xx"),
     ("EG.props.C06", "C06_refuted_sig_verifies_drained_body"),
@@ -24,16 +25,22 @@ HARNESSES = [
     dict(name="validator", pkg="pkg/filters/validator",
          files=["harness/validator/zz_verif_c06_test.go", "harness/validator/zz_verif_c06_ref_test.go",
                 "harness/validator/zz_verif_c06_gen_test.go"],
-         run="TestVerifC06", groups=["v"], timeout=600),
+         run="TestVerifC06", groups=["v"], timeout=600, share=0.9),
+    dict(name="etcd", pkg="pkg/filters/validator",
+         files=["harness/validator/zz_verif_c06_test.go", "harness/validator/zz_verif_c06_ref_test.go",
+                "harness/validator/zz_verif_c06_gen_test.go", "harness/validator/zz_verif_c06_etcd_test.go"],
+         run="TestVerifC06Etcd", groups=["etcd"], timeout=600, share=0.1),
 ]
-GROUPS = {"v": "(check_v pinned)"}
-EXPLAIN = {"v": "(explain_v pinned)"}
+GROUPS = {"v": "(check_v pinned)", "etcd": "(check_etcd pinned)"}
+EXPLAIN = {"v": "(explain_v pinned)", "etcd": "(explain_etcd pinned)"}
 CASES = {"quick": 700, "thorough": 12000}
 RULE = ("cases: random Validator configurations (header rules, jwt HS256/384/512 via header or cookie, signature with 1-4 access keys / ttl / "
         "excludeBody / custom literals in header and presign mode, basic auth users incl. ':' and non-ASCII passwords, combinations) x requests "
         "built by an independent signer/issuer and then mutated in one covered or uncovered part; delivered as net/http parse -> "
         "ByteCountReader -> httpprot.NewRequest -> FetchPayload -> Handle; non-trivial = delivered to the filter; "
-        "class = 1 + 2*shape label + accepted; distinct = distinct (group, input) hashes among non-trivial cases")
+        "class = 1 + 2*shape label + accepted; group etcd: ETCD-mode basic auth on a mocked cluster, histories of user-set updates "
+        "(add, change password, remove one, remove ALL incl. nil map, re-add) through the mocked syncer interleaved with requests by current, former "
+        "and unknown users; distinct = distinct (group, input) hashes among non-trivial cases")
 TRUSTED_BASE = [
     "model coq/model/Validator.v is hand-written; tied to pkg/filters/validator + pkg/util/signer + httpheader.Validator by the per-run correspondence (sampled)",
     "idealised cryptography: SHA-256, HMAC (signer key chain, JWT HS256/384/512) are oracle fields with injectivity hypotheses; per case the harness "
@@ -43,6 +50,8 @@ TRUSTED_BASE = [
     "go-htpasswd {SHA} matching (model: exact password equality)",
     "harness reference verifier (own canonicalisation, own signer and JWT issuer) defines the expected decision; the ideal model must agree with it on every case",
     "OAuth2 (token introspection server / self-encoded tokens) is NOT modelled and not exercised",
+    "ETCD-mode basic auth runs on clustertest mocks (GetPrefix, Syncer.SyncPrefix); the real etcd syncer is C19's subject; "
+    "each update is sent twice on the unbuffered channel so that the first is applied before the next request",
     "signature time checks use the real clock (signer.go calls time.Now): cases keep >= 20 s distance from every ttl/expiry boundary",
 ]
 ASSUMPTIONS = [
@@ -50,6 +59,9 @@ ASSUMPTIONS = [
     "requests reach the filter with the body buffered by FetchPayload (not the stream mode maxPayloadSize < 0); origin-form request targets (URL.Scheme/Host/Opaque empty)",
     "the signature method has a non-empty accessKeys store (an empty store panics in Verify: that is C13's finding)",
     "header rules: the first value of a multi-valued header decides (as the code does); strings.TrimSpace modelled for ASCII white space only",
+    "JWT time claims: a claim that is absent, not a JSON number, or whose whole second is 0 does not restrict (library semantics); a numeric claim "
+    "counts with its value truncated toward zero to a whole second (fractions and exponent forms are legal NumericDates); values outside int64 are not generated",
+    "etcd user sets have distinct effective user names (otherwise Go map order decides which entry wins)",
     "the signature-carrying parameters (credential date prefix, scope suffix, X-Me-Expires spelling) are covered by their parsed meaning, not byte-wise",
 ]
 MANIFEST = dict(
@@ -84,6 +96,12 @@ def _mmap(kvs):
 
 def _optz(x):
     return "None" if x is None else "(Some %s)" % Z(x)
+
+
+def _jnum(n):
+    if not n or not n.get("num"):
+        return "JAbsent"
+    return "(JNum %s %s)" % (Z(int(n["m"])), Z(n["e"]))
 
 
 def _group2(triples, fv):
@@ -150,7 +168,7 @@ def _tables(t):
         c = e["c"]
         if not c["ok"]:
             return T(S(e["k"]), "None")
-        return T(S(e["k"]), "(Some (%s, %s, %s))" % (_optz(c.get("exp")), _optz(c.get("iat")), _optz(c.get("nbf"))))
+        return T(S(e["k"]), "(Some (%s, %s, %s))" % (_jnum(c.get("exp")), _jnum(c.get("iat")), _jnum(c.get("nbf"))))
 
     def ptime(e):
         if not e["ok"]:
@@ -172,8 +190,40 @@ def _tables(t):
     )
 
 
+def _ecreds(us):
+    return L([Rec(e_key=S(u["key"]), e_user=S(u["username"]), e_pass=S(u["password"]), e_stored=B(not u["noPass"])) for u in us or []])
+
+
+def _observed(res):
+    return Rec(ob_invalid=B(res.get("res") == "invalid"), ob_other=B(res.get("res", "") not in ("", "invalid")),
+               ob_status=Z(res.get("status", 0)), ob_by=N(res.get("by", 0)), ob_panic=B(res.get("panic", False)))
+
+
+def _encode_etcd(i, o):
+    steps, k = [], 0
+    obs_steps = o.get("steps") or []
+    short = False
+    for op in i["ops"] or []:
+        if op["op"] == "update":
+            steps.append(C("SUpdate", _ecreds([] if op.get("nil") else op.get("users"))))
+        else:
+            if k >= len(obs_steps):
+                short = True
+                break
+            st = obs_steps[k]
+            k += 1
+            req = Rec(r_method=S("GET"), r_escpath=S("/"), r_query="[]", r_host=S("example.com"),
+                      r_headers=L([T(S("Authorization"), L([S("Basic " + st["b64"])]))]), r_payload=S(""), r_cookie="None")
+            steps.append(C("SReq", req, _observed(st["result"]), B(st["expect"])))
+    return Rec(ec_alive=B(not i["initErr"]), ec_init=_ecreds(i["initial"]), ec_steps=L(steps),
+               ec_b64=L([T(S(a), "(Some %s)" % SX(h)) for a, h in o.get("b64tab") or []]),
+               ec_stuck=B(bool(o.get("stuck")) or short))
+
+
 def encode(c):
     i, o = c["in"], c["obs"]
+    if c["grp"] == "etcd":
+        return _encode_etcd(i, o)
     v = o.get("view")
     res = o.get("result") or {}
     if not o.get("delivered") or v is None:
@@ -190,8 +240,16 @@ def encode(c):
 
 def distribution(cases):
     d = dict(delivered=0, accepted=0, rejected_by={}, kinds={}, methods={}, bodied=0, presign=0, muts={})
+    d["etcd_histories"] = d["etcd_updates"] = d["etcd_empty_updates"] = d["etcd_requests"] = 0
     for c in cases:
         i, o = c["in"], c["obs"]
+        if c["grp"] == "etcd":
+            d["etcd_histories"] += 1
+            for op in i["ops"] or []:
+                d["etcd_updates"] += op["op"] == "update"
+                d["etcd_empty_updates"] += op["op"] == "update" and not op.get("users")
+                d["etcd_requests"] += op["op"] == "req"
+            continue
         d["delivered"] += bool(o.get("delivered"))
         r = o.get("result") or {}
         if o.get("delivered"):
@@ -212,11 +270,20 @@ def distribution(cases):
 
 
 def signature(c, r):
+    if c["grp"] == "etcd":
+        return "etcd"
     return "%s-%s" % (c["in"].get("kind"), (c["obs"].get("result") or {}).get("by"))
 
 
 def shrink_candidates(inp, grp):
     import copy
+    if grp == "etcd":
+        ops = inp.get("ops") or []
+        for k in range(len(ops)):
+            cand = copy.deepcopy(inp)
+            del cand["ops"][k]
+            yield cand
+        return
     # drop methods that are not needed, then headers / query parameters / scopes
     for m in ("headers", "jwt", "basic"):
         if inp["cfg"].get(m) is not None and sum(inp["cfg"].get(x) is not None for x in ("headers", "jwt", "sig", "basic")) > 1:
